@@ -11,8 +11,30 @@ fn fmt(s: [u64; 12]) -> String {
     s.iter().map(|x| x.to_string()).collect::<Vec<_>>().join(" ")
 }
 
+/// `rbv c05 enter`: the budgets enter() derives from the buffer length, on the real buffer (hook), for lengths around every
+/// threshold of the formula: `enter <n> <max_len> <max_ops>`
+fn enter_cmd() {
+    use rustybuzz::verif::buffer as hk;
+    let mut ns: Vec<usize> = vec![0, 1, 2, 3, 15, 16, 17, 63, 64, 65, 127, 128, 129, 255, 256, 257, 1000, 4095, 4096, 4097, 16383, 16384, 16385, 20000, 65535, 65536, 100000, 262143, 262144, 262145, 1000000, 2097151, 2097152, 2097153, 3000000];
+    ns.sort();
+    for n in ns {
+        let mut b = hk::hb_buffer_t::new();
+        b.max_len = usize::MAX; // so that the length itself is not limited while the buffer is filled
+        for i in 0..n {
+            hk::push_info(&mut b, hk::info_new(1, 0, i as u32, 0, 0));
+        }
+        b.max_len = 0x3FFF_FFFF;
+        b.max_ops = 0x1FFF_FFFF;
+        hk::enter(&mut b);
+        println!("enter {} {} {}", b.len, b.max_len, b.max_ops);
+    }
+}
+
 pub fn run(args: &[String]) {
     quiet_panics();
+    if args.first().map(|s| s.as_str()) == Some("enter") {
+        return enter_cmd();
+    }
     let seed = arg_u64(args, "--seed", 1);
     let n = arg_u64(args, "--n", 100);
     let mut r = Rng::new(seed);
